@@ -483,7 +483,15 @@ func spec() corr.Spec {
 			case "thorough":
 				return 30000
 			}
-			return 60000
+			return 40000
+		},
+		// independent scripts: spread them over child processes (the lock scripts of C17 are scheduler-driven and cannot
+		// share a process; for both properties it keeps a run through the failing-input search well under two minutes)
+		Shards: func(tier string) int {
+			if tier == "quick" {
+				return 4
+			}
+			return 10
 		},
 		Gen: genCase,
 		Run: runCase,
